@@ -220,7 +220,85 @@ func ruleReleasers(c *Ctx, rule string, part string) {
 				c.ob(rule, fn, "policy given to "+shortCallee(u)+" is the re-read stored policy", u, ok && pathEndsWith(stripConv(pol), "Policy"), "policy argument: "+why)
 			}
 		case "cloud":
-			un := calls(fn, "(*FloatingIPPlugin).cloudProviderUnAssignIP")
+			un := callsLocal(fn, "(*FloatingIPPlugin).cloudProviderUnAssignIP")
+			var noneUnassigned []edge
+			reserveInHelper := false
+			host := fn
+			if len(un) == 0 {
+				// the whole provider block (unassign every ip, then clear node and uid) moved into a helper of its own: the
+				// block is judged there, and its call is the unassign site here
+				for _, h1 := range helperFns(fn, 1) {
+					if errResultIndex(h1) < 0 || len(callsLocal(h1, "(*FloatingIPPlugin).cloudProviderUnAssignIP")) > 0 {
+						continue
+					}
+					deep := false
+					for _, h2 := range helperFns(h1, 1) {
+						if len(callsLocal(h2, "(*FloatingIPPlugin).cloudProviderUnAssignIP")) > 0 {
+							deep = true
+						}
+					}
+					if !deep || len(callsLocal(h1, "(*FloatingIPPlugin).reserveIP")) == 0 {
+						continue
+					}
+					for _, cs := range staticSites[h1] {
+						if cs.Parent() == fn {
+							un = append(un, cs)
+						}
+					}
+					reserveInHelper = true
+					host = h1
+				}
+			}
+			if host != fn || len(un) == 0 {
+				// the unassign of every ip of the key lives in a helper that returns (any unassigned, error): its call is the
+				// unassign site here, and the helper is judged on its own
+				var unHost []ssa.CallInstruction
+				for _, h := range helperFns(host, 1) {
+					inner := callsLocal(h, "(*FloatingIPPlugin).cloudProviderUnAssignIP")
+					if len(inner) == 0 || errResultIndex(h) < 0 {
+						continue
+					}
+					for _, cs := range staticSites[h] {
+						if cs.Parent() == host {
+							unHost = append(unHost, cs)
+							noneUnassigned = append(noneUnassigned, guardEdges(host, negate(predBool(func(v ssa.Value) bool {
+								ex, ok := v.(*ssa.Extract)
+								return ok && ex.Tuple == ssa.Value(cs) && ex.Index == 0
+							})))...)
+						}
+					}
+					for _, u := range inner {
+						okE, _, why := onErrorReturnsErr(h, u)
+						c.ob(rule, h, "a failed unassign fails the helper", u, okE, why)
+						// an ip is skipped only when no node is recorded for it
+						hdr := loopHeaderOf(u)
+						okSkip := hdr != nil
+						if okSkip {
+							nodeEmpty := guardEdges(h, predEq(func(v ssa.Value) bool { return pathEndsWith(v, "NodeName") }, func(v ssa.Value) bool { s, ok := constStringVal(v); return ok && s == "" }))
+							for k := range hdr.Succs {
+								if naturalLoop(hdr)[hdr.Succs[k]] && reachFromEdge(edge{hdr, k}, newCut().instr(u).edge(nodeEmpty...)).has(hdr.Instrs[0]) {
+									okSkip = false
+								}
+							}
+						}
+						c.ob(rule, h, "every ip of the key with a recorded node is unassigned", u, okSkip, "inside the loop over the key's ips the next iteration is reached without the unassign only through the NodeName == \"\" edge")
+					}
+				}
+				if host == fn {
+					un = unHost
+				} else {
+					// in the block helper: node and uid are cleared only after the unassign helper succeeded
+					for _, s2 := range unHost {
+						okR := false
+						for _, r := range callsLocal(host, "(*FloatingIPPlugin).reserveIP") {
+							if ok, dec := onlyAfterSuccess(host, s2, r); ok && dec && (sameAccess(callArgs(r)[0], callArgs(r)[1]) || callArgs(r)[0] == callArgs(r)[1]) {
+								okR = true
+							}
+						}
+						c.ob(rule, host, "node and uid are cleared after a successful unassign", s2, okR, "reserveIP(key, key, ..) is called only after the unassign of the key's ips succeeded")
+					}
+				}
+			}
 			if len(un) == 0 {
 				c.ob(rule, fn, "unassign before free", nil, false, "no cloudProviderUnAssignIP call")
 				continue
@@ -238,6 +316,9 @@ func ruleReleasers(c *Ctx, rule string, part string) {
 					r := c.reachAfter(m, nil)
 					c.ob(rule, fn, "never free first: no unassign after "+shortCallee(m), m, !r.has(s), "cloudProviderUnAssignIP is not reachable after the freeing call")
 				}
+				if reserveInHelper {
+					continue
+				}
 				// after a successful unassign, reserveIP(key,key) (clears node and uid) precedes the freeing calls
 				rs := calls(fn, "(*FloatingIPPlugin).reserveIP")
 				okR := false
@@ -245,7 +326,7 @@ func ruleReleasers(c *Ctx, rule string, part string) {
 					if ok, dec := onlyAfterSuccess(fn, s, r); ok && dec && sameAccess(callArgs(r)[0], callArgs(r)[1]) {
 						okR = true
 						for _, t := range errTests(s) {
-							after := reachFromEdge(t.OkEdge, newCut().instr(r))
+							after := reachFromEdge(t.OkEdge, newCut().instr(r).edge(noneUnassigned...))
 							for _, m := range final {
 								c.ob(rule, fn, "node and uid cleared between a successful unassign and "+shortCallee(m), m, !after.has(m), "from the err==nil edge of the unassign the freeing call is reachable only past reserveIP(key,key)")
 							}
